@@ -122,6 +122,8 @@ impl Walrus {
 
         // Important: release the per-column lock; we'll reacquire each iteration
         drop(info);
+        #[cfg(walrus_verif)]
+        crate::wal::verif::yield_point("rn_after_hydrate");
 
         loop {
             // Reacquire column lock at the start of each iteration
@@ -164,6 +166,8 @@ impl Walrus {
 
                         // Drop the column lock before touching the index to avoid lock inversion
                         drop(info);
+                        #[cfg(walrus_verif)]
+                        crate::wal::verif::yield_point("rn_sealed_before_persist");
                         if checkpoint {
                             if let Some((idx_val, off_val)) = maybe_persist {
                                 if let Ok(mut idx_guard) = self.read_offset_index.write() {
@@ -199,6 +203,8 @@ impl Walrus {
             // Tail path
             let tail_snapshot = (info.tail_block_id, info.tail_offset);
             drop(info);
+            #[cfg(walrus_verif)]
+            crate::wal::verif::yield_point("rn_tail_after_snapshot");
 
             let writer_arc = {
                 let map = self.writers.read().map_err(|_| {
@@ -210,6 +216,8 @@ impl Walrus {
                 }
             };
             let (active_block, written) = writer_arc.snapshot_block()?;
+            #[cfg(walrus_verif)]
+            crate::wal::verif::yield_point("rn_tail_after_writer_snapshot");
 
             // If persisted tail points to a different block and that block is now sealed in chain, fold it
             // Reacquire column lock for folding/rebasing decisions
@@ -281,6 +289,8 @@ impl Walrus {
                 }
             }
             drop(info);
+            #[cfg(walrus_verif)]
+            crate::wal::verif::yield_point("rn_tail_before_read");
 
             // Choose the best known tail offset: prefer in-memory snapshot for current active block
             let (tail_block_id, mut tail_off) = match persisted_tail {
@@ -304,6 +314,8 @@ impl Walrus {
             if tail_off < written {
                 match active_block.read(tail_off) {
                     Ok((entry, consumed)) => {
+                        #[cfg(walrus_verif)]
+                        crate::wal::verif::yield_point("rn_tail_after_read");
                         let new_off = tail_off + consumed as u64;
                         // Reacquire column lock to update in-memory progress, then decide persistence
                         let mut info = info_arc.write().map_err(|_| {
@@ -320,6 +332,8 @@ impl Walrus {
                             };
                         }
                         drop(info);
+                        #[cfg(walrus_verif)]
+                        crate::wal::verif::yield_point("rn_tail_before_persist");
                         if checkpoint {
                             if let Some((idx_val, off_val)) = maybe_persist {
                                 if let Ok(mut idx_guard) = self.read_offset_index.write() {
@@ -423,6 +437,8 @@ impl Walrus {
             }
         };
 
+        #[cfg(walrus_verif)]
+        crate::wal::verif::yield_point("br_after_writer_snapshot");
         // 1) Prepare state (Chain + Position)
         let mut _held_arc: Option<Arc<RwLock<ColReaderInfo>>> = None;
 
@@ -903,6 +919,10 @@ impl Walrus {
             // Release lock for AtLeastOnce before IO
             drop(info_guard.take().unwrap());
         }
+        #[cfg(walrus_verif)]
+        if info_guard.is_none() {
+            crate::wal::verif::yield_point("br_before_io");
+        }
 
         // 3) Read ranges via io_uring (FD backend) or mmap
         #[cfg(target_os = "linux")]
@@ -1146,6 +1166,10 @@ impl Walrus {
             }
         }
 
+        #[cfg(walrus_verif)]
+        if info_guard.is_none() {
+            crate::wal::verif::yield_point("br_before_commit");
+        }
         // 5) Commit progress (optional)
         if entries_parsed > 0 {
             enum PersistTarget {
@@ -1216,6 +1240,8 @@ impl Walrus {
                 }
             }
 
+            #[cfg(walrus_verif)]
+            crate::wal::verif::yield_point("br_before_index");
             // Commit to index
             if checkpoint {
                 match target {
